@@ -86,6 +86,53 @@ example (n : Name) (hl : isLog n = false) :
   C14_restore_yields_checkpoint_files _ exFS exInv (by decide) ⟨rfl, rfl⟩ n hl
 example : Gen.restoreShape = true ∧ Gen.hardLinkCopyReplaces = true := ⟨rfl, rfl⟩
 
+/-! ### the write-back cache around checkpoints (HyperLogLog writes are acknowledged while they are still in a cache)
+
+Model: the logical content = the engine's content overridden by the dirty cache entries. `Backup` flushes first (pinned:
+`Gen.backupFlushesCacheFirst`), a restore ends in `reOpenEng`, which installs a fresh cache (pinned: `Gen.reopenStartsWithFreshCache`). -/
+
+/-- engine content overridden by the dirty cache -/
+def logical {K V : Type} [DecidableEq K] (eng : K → Option V) (dirty : List (K × V)) : K → Option V :=
+  fun k => match dirty.find? (·.1 == k) with
+    | some p => some p.2
+    | none => eng k
+
+/-- flushing writes every dirty entry into the engine, oldest first (the newest value of a key wins, as `find?` reads it) -/
+def flush {K V : Type} [DecidableEq K] (eng : K → Option V) (dirty : List (K × V)) : K → Option V :=
+  dirty.foldr (fun p e => fun k => if k = p.1 then some p.2 else e k) eng
+
+theorem flush_eq_logical {K V : Type} [DecidableEq K] (eng : K → Option V) (dirty : List (K × V)) :
+    flush eng dirty = logical eng dirty := by
+  funext k
+  induction dirty with
+  | nil => rfl
+  | cons p t ih =>
+    unfold flush logical at *
+    simp only [List.foldr_cons, List.find?_cons]
+    by_cases h : k = p.1
+    · subst h; simp
+    · have : (p.1 == k) = false := by simp; exact fun e => h e.symm
+      simp only [h, if_false, this]
+      exact ih
+
+/-- **the checkpoint holds every acknowledged write**: what `Backup` hands to the checkpoint (the engine after the flush it
+    performs first) is the logical content at that moment, dirty cache entries included — for every engine content and cache -/
+theorem C14_backup_sees_cached_writes {K V : Type} [DecidableEq K] (eng : K → Option V) (dirty : List (K × V))
+    (_pin : Gen.backupFlushesCacheFirst = true) :
+    (if Gen.backupFlushesCacheFirst then flush eng dirty else eng) = logical eng dirty := by
+  simp only [Gen.backupFlushesCacheFirst, if_true]
+  exact flush_eq_logical eng dirty
+
+/-- **after a restore nothing of the previous history survives in the cache**: the logical content is the restored engine's -/
+theorem C14_restore_forgets_cache {K V : Type} [DecidableEq K] (restored : K → Option V) (oldDirty : List (K × V))
+    (_pin : Gen.reopenStartsWithFreshCache = true) :
+    logical restored (if Gen.reopenStartsWithFreshCache then [] else oldDirty) = restored := by
+  simp only [Gen.reopenStartsWithFreshCache, if_true]
+  rfl
+
+example : logical (fun k => if k = 1 then some 10 else none) [(2, 5), (1, 7)] 1 = some 7 := by decide
+example : flush (fun (k : Nat) => if k = 1 then some 10 else none) [(2, 5), (1, 7)] 2 = some 5 := by decide
+
 /-! non-vacuity: 5 checkpoints, keep 2, latest recorded snapshot index 40 -/
 example : purge 2 40 [(1, 10), (1, 20), (2, 30), (2, 40), (3, 50)] = [(1, 20), (2, 30), (2, 40), (3, 50)] := by decide
 
